@@ -27,8 +27,8 @@ RULE = ("stress cases: random histories of add/remove/move/query on the real Cel
         " Round-7 additions: distinct atoms with identical labels (stress histories reusing names; solvent whose numbering repeats).")
 ASSUMPTIONS = ["brute force over the atoms currently owned by residues is the ground truth for 'every atom'",
                "a query is judged at the moment it is made (under the code's own single thread)"]
-MIN = {"quick": {"stress_queries": 20000, "invivo_queries": 6000, "stress_moves_across_cells": 500, "pka_route_runs": 6, "runs_with_repeating_water_labels": 5},
-       "thorough": {"stress_queries": 600000, "invivo_queries": 150000, "stress_moves_across_cells": 20000, "pka_route_runs": 300, "runs_with_repeating_water_labels": 300}}
+MIN = {"quick": {"stress_queries": 20000, "invivo_queries": 6000, "stress_moves_across_cells": 500, "pka_route_runs": 6, "runs_with_repeating_water_labels": 5, "scan_steps_single_atom_torsion": 50},
+       "thorough": {"stress_queries": 600000, "invivo_queries": 150000, "stress_moves_across_cells": 20000, "pka_route_runs": 300, "runs_with_repeating_water_labels": 300, "scan_steps_single_atom_torsion": 2500}}
 SHARDS_PER_JOB = 4
 
 
@@ -64,6 +64,17 @@ def cases(tier, seed):
                     "p": {"crowd_prob": 0.6, "crowd_heavy_prob": 1.0, "minlen": 5, "maxlen": 9, "na": False, "waters": [0, 3],
                           "hydrogens": ["none"], "pool": ["ARG", "LYS", "GLU", "GLN", "MET", "ILE", "LEU", "TRP", "PHE",
                                                           "TYR", "HIS", "ASN", "ASP", "THR", "SER"]}})
+    out += [{"kind": "scan", "seed": seed * 950017 + i, "ff": ["AMBER", "PARSE", "CHARMM"][i % 3]}
+            for i in range(8 if tier == "quick" else 400)]
+    # torsions that move a single atom (hydroxyl / thiol hydrogens, which the debumper scans itself under --noopt; a lone
+    # rebuilt OG / SG): the atom is re-registered many times in a row, often without leaving its cell
+    for i in range(12 if tier == "quick" else 1200):
+        ff = ["AMBER", "CHARMM", "PARSE", "TYL06", "PEOEPB", "SWANSON"][i % 6]
+        out.append({"kind": "pipe", "w": "synth", "seed": seed * 940013 + i, "ff": ff,
+                    "opts": [f"--ff={ff}"] + ([] if i % 4 == 3 else ["--noopt"]),
+                    "p": {"crowd_prob": 0.5, "carbon_obstacle_prob": 1.0, "damage_prob": 0.3 if i % 2 else 0.0,
+                          "minlen": 5, "maxlen": 8, "na": False, "waters": [0, 2], "hydrogens": ["none"],
+                          "pool": ["SER", "THR", "TYR", "CYS", "SER", "THR", "ALA", "GLY"]}})
     # acid-rich, densely packed, hydrated structures through the pKa route: protonated carboxylic acids whose hydroxyl
     # hydrogen is tried on either oxygen (atoms appear, move and disappear between queries)
     nacid = 12 if tier == "quick" else 1500
@@ -281,9 +292,80 @@ def setup_worker():
     logging.getLogger().setLevel(logging.ERROR)
 
 
+def run_scan(spec, res):
+    """The debumper's own scan protocol on the biomolecule a full run returned: every torsion of every residue is turned
+    in 10 degree steps through Debump.set_dihedral_angle on a fresh size-2 map, and after every step each atom of the
+    residue must be returned by the neighbour search of every atom within the cell size of it (single-atom torsions -
+    hydroxyl / thiol hydrogens - are re-registered dozens of times in a row, mostly without leaving their cell)."""
+    import numpy as np
+    from pdb2pqr.cells import Cells
+    from pdb2pqr.debump import Debump
+    from ..gen import pdbfmt
+    from ..gen import structures as S
+    rng = random.Random(spec["seed"])
+    pool = ["SER", "THR", "TYR", "CYS", "LYS", "GLU", "ASN", "HIS", "MET", "ARG", "ILE", "ALA"]
+    pep = S.peptide([rng.choice(pool) for _ in range(rng.randint(4, 7))], rng)
+    wat = [S.water(S.centroid(pep), rng, spread=6.0) for _ in range(rng.randint(0, 3))]
+    items, _truth = S.assemble([{"id": "A", "start": 1, "residues": pep}] +
+                               ([{"id": "W", "start": 201, "residues": wat}] if wat else []))
+    r = pipeline.run(pdbfmt.to_text(items), [f"--ff={spec['ff']}"] + rng.choice([[], ["--noopt"]]), workname="c14")
+    if not r.ok:
+        res.count("scan_runs_failed")
+        return
+    bio = r.bio
+    deb = Debump(bio)
+    size = 2
+    deb.cells = Cells(size)
+    deb.cells.assign_cells(bio)
+    bio.calculate_dihedral_angles()
+    bio.set_donors_acceptors()
+    bio.update_internal_bonds()
+    bio.set_reference_distance()
+    res.count("scan_structures")
+    registered = [a for a in bio.atoms if getattr(a, "cell", None) is not None]
+    for residue in bio.residues:
+        ref = getattr(residue, "reference", None)
+        if ref is None or not hasattr(residue, "dihedrals"):
+            continue
+        for anglenum, dname in enumerate(ref.dihedrals):
+            names = dname.split()
+            if anglenum >= len(residue.dihedrals) or residue.dihedrals[anglenum] is None or \
+                    not all(residue.has_atom(n) for n in names):
+                continue
+            moved = residue.get_moveable_names(names[2])
+            start = residue.dihedrals[anglenum]
+            for step in range(1, rng.choice([6, 12, 36]) + 1):
+                deb.set_dihedral_angle(residue, anglenum, start + 10.0 * step)
+                res.count("scan_steps")
+                if len(moved) == 1:
+                    res.count("scan_steps_single_atom_torsion")
+                xyz = np.array([[a.x, a.y, a.z] for a in registered])
+                for mname in moved:
+                    if not residue.has_atom(mname):
+                        continue
+                    m = residue.get_atom(mname)
+                    d = np.linalg.norm(xyz - np.array([m.x, m.y, m.z]), axis=1)
+                    for k in np.nonzero(d <= size)[0]:
+                        q = registered[k]
+                        if q is m:
+                            continue
+                        res.count("scan_queries")
+                        if not any(x is m for x in deb.cells.get_near_cells(q)):
+                            res.violate("scan/moved-atom-not-found-by-neighbour", f"after step {step} of torsion '{dname}' of "
+                                        f"{residue}: {q.residue} {q.name} does not see {mname} at {d[k]:.2f} A (cell size "
+                                        f"{size}; {mname}.cell = {m.cell})", ff=spec["ff"], seed=spec["seed"],
+                                        dihedral=dname, moved=moved)
+                            return
+            res.nt("scan", residue.name, anglenum)
+            res.cell("scan", residue.name, "single" if len(moved) == 1 else "multi")
+    res.sample = {"kind": "scan", "seed": spec["seed"]}
+
+
 def run_case(spec):
     res = Res()
-    if spec["kind"] == "stress":
+    if spec["kind"] == "scan":
+        run_scan(spec, res)
+    elif spec["kind"] == "stress":
         run_stress(spec, res)
     else:
         run_pipe(spec, res)
